@@ -45,19 +45,22 @@ def checkGens (numPops : Nat) (tol : Rat) : Int → List GenLine → Except Reas
         else if absRat (fr.foldl (· + ·) 0 - 1) > tol then .error .fracSum
         else checkGens numPops tol cur rest
 
+/-- the `for model_pop in pops[1:]` loop: presence first, then (with --no_replacement) the sample count -/
+def checkPops (inp : Inputs) (n : Int) : List String → Except Reason Unit
+  | [] => .ok ()
+  | p :: rest =>
+    if !(inp.sampleInfo.map (·.2)).contains p then .error .popNotInInfo
+    else if inp.noReplacement && decide (((inp.sampleInfo.filter (fun sp => sp.2 = p)).length : Int) < n)
+      then .error .tooFewSamples
+    else checkPops inp n rest
+
 def checkInfo (inp : Inputs) (vcf : List String) : Except Reason Unit :=
   match inp.sampleInfo.find? (fun sp => !vcf.contains sp.1 && inp.pops.contains sp.2) with
   | some _ => .error .sampleNotInVcf
   | none =>
-    match (inp.pops.drop 1).find? (fun p => !(inp.sampleInfo.map (·.2)).contains p) with
-    | some _ => .error .popNotInInfo
-    | none =>
-      match inp.nSamples with
-      | none => .ok ()
-      | some n =>
-        if inp.noReplacement &&
-            (inp.pops.drop 1).any (fun p => ((inp.sampleInfo.filter (fun sp => sp.2 = p)).length : Int) < n)
-        then .error .tooFewSamples else .ok ()
+    match inp.nSamples with
+    | none => .ok ()
+    | some n => checkPops inp n (inp.pops.drop 1)
 
 def validate (tol : Rat) (inp : Inputs) : Except Reason Int :=
   match inp.nSamples with
@@ -158,5 +161,251 @@ theorem popsize_at_least (tol : Rat) (inp : Inputs) (p n : Int) (hn : inp.nSampl
                       · split at h
                         · cases h
                         · cases h; exact hmax
+
+/-! ### characterisation of acceptance -/
+
+/-- every generation line meets the documented requirements -/
+def GensOK (numPops : Nat) (tol : Rat) : Int → List GenLine → Prop
+  | _, [] => True
+  | prev, g :: rest => ∃ cur fr, g.gen = some cur ∧ g.fracs = some fr ∧ fr.length = numPops ∧
+      1 ≤ cur - prev ∧ absRat (fr.foldl (· + ·) 0 - 1) ≤ tol ∧ GensOK numPops tol cur rest
+
+theorem checkGens_ok_iff (numPops : Nat) (tol : Rat) : ∀ (gens : List GenLine) (prev : Int),
+    checkGens numPops tol prev gens = .ok () ↔ GensOK numPops tol prev gens
+  | [], prev => by simp [checkGens, GensOK]
+  | g :: rest, prev => by
+    unfold checkGens GensOK
+    cases hg : g.gen with
+    | none => simp
+    | some cur =>
+      cases hf : g.fracs with
+      | none => simp
+      | some fr =>
+        simp only [Option.some.injEq, exists_and_left, exists_eq_left']
+        by_cases h1 : fr.length ≠ numPops
+        · simp [h1]
+        · by_cases h2 : cur - prev < 1
+          · simp [h1, h2]; intro _ h; omega
+          · by_cases h3 : absRat (fr.foldl (· + ·) 0 - 1) > tol
+            · simp [h1, h2, h3]; intro _ _ h; exact absurd h (Rat.not_le.mpr h3)
+            · have ih := checkGens_ok_iff numPops tol rest cur
+              simp only [h1, h2, h3, ↓reduceIte, ih]
+              constructor
+              · intro h; exact ⟨by simpa using h1, by omega, Rat.not_lt.mp h3, h⟩
+              · intro h; exact h.2.2.2
+
+def PopsOK (inp : Inputs) (n : Int) (ps : List String) : Prop :=
+  ∀ p ∈ ps, (inp.sampleInfo.map (·.2)).contains p = true ∧
+    (inp.noReplacement = true → n ≤ ((inp.sampleInfo.filter (fun sp => sp.2 = p)).length : Int))
+
+theorem checkPops_ok_iff (inp : Inputs) (n : Int) : ∀ ps, checkPops inp n ps = .ok () ↔ PopsOK inp n ps
+  | [] => by simp [checkPops, PopsOK]
+  | p :: rest => by
+    unfold checkPops
+    have ih := checkPops_ok_iff inp n rest
+    by_cases h1 : (inp.sampleInfo.map (·.2)).contains p = true
+    · by_cases h2 : inp.noReplacement = true ∧ ((inp.sampleInfo.filter (fun sp => sp.2 = p)).length : Int) < n
+      · have : (inp.noReplacement && decide (((inp.sampleInfo.filter (fun sp => sp.2 = p)).length : Int) < n)) = true := by
+          simp [h2.1, h2.2]
+        simp only [h1, Bool.not_true, Bool.false_eq_true, ↓reduceIte, this, reduceCtorEq, false_iff]
+        intro h; have := (h p List.mem_cons_self).2 h2.1; omega
+      · have : (inp.noReplacement && decide (((inp.sampleInfo.filter (fun sp => sp.2 = p)).length : Int) < n)) = false := by
+          cases hb : inp.noReplacement <;> simp_all
+        simp only [h1, Bool.not_true, Bool.false_eq_true, ↓reduceIte, this, ih]
+        constructor
+        · intro h q hq
+          rcases List.mem_cons.mp hq with rfl | hq'
+          · refine ⟨h1, fun hnr => ?_⟩
+            by_cases hlt : ((inp.sampleInfo.filter (fun sp => sp.2 = q)).length : Int) < n
+            · exact absurd ⟨hnr, hlt⟩ h2
+            · omega
+          · exact h q hq'
+        · intro h q hq; exact h q (List.mem_cons_of_mem _ hq)
+    · have h1' : (inp.sampleInfo.map (·.2)).contains p = false := by simpa using h1
+      simp only [h1', Bool.not_false, ↓reduceIte, reduceCtorEq, false_iff]
+      intro h; have := (h p List.mem_cons_self).1; rw [h1'] at this; cases this
+
+/-- all requirements, as one predicate (what the documentation asks of an input) -/
+def Accepts (tol : Rat) (inp : Inputs) (p : Int) : Prop :=
+  ∃ n ps, inp.nSamples = some n ∧ 3 ≤ inp.pops.length ∧ 1 ≤ n ∧
+    GensOK inp.pops.length tol 0 inp.gens ∧ inp.mapdirIsDir = true ∧
+    (∀ c ∈ inp.chroms, c ∈ validChroms) ∧ inp.mapFilesFound ≠ 0 ∧
+    inp.popsize = some ps ∧ 0 < ps ∧ p = max ps (10 * n) ∧
+    (∀ s e, inp.region = some (s, e) → s ≤ e) ∧
+    (inp.onlyBp = true ∨ ∃ vcf, inp.vcfSamples = some vcf ∧
+      (∀ sp ∈ inp.sampleInfo, sp.2 ∈ inp.pops → sp.1 ∈ vcf) ∧
+      PopsOK inp n (inp.pops.drop 1))
+
+theorem checkInfo_ok_iff (inp : Inputs) (vcf : List String) (n : Int) (hn : inp.nSamples = some n) :
+    checkInfo inp vcf = .ok () ↔
+      (∀ sp ∈ inp.sampleInfo, sp.2 ∈ inp.pops → sp.1 ∈ vcf) ∧ PopsOK inp n (inp.pops.drop 1) := by
+  unfold checkInfo
+  cases hf : inp.sampleInfo.find? (fun sp => !vcf.contains sp.1 && inp.pops.contains sp.2) with
+  | some x =>
+    simp only [reduceCtorEq, false_iff, not_and]
+    intro h
+    have hx := List.find?_some hf
+    have hm := List.mem_of_find?_eq_some hf
+    simp only [Bool.and_eq_true, Bool.not_eq_true', List.contains_eq_mem, decide_eq_false_iff_not,
+      decide_eq_true_eq] at hx
+    exact absurd (h x hm hx.2) hx.1
+  | none =>
+    simp only [hn, checkPops_ok_iff]
+    constructor
+    · intro h
+      refine ⟨?_, h⟩
+      intro sp hsp hc
+      have := List.find?_eq_none.mp hf sp hsp
+      simp only [Bool.and_eq_true, Bool.not_eq_true', List.contains_eq_mem, decide_eq_false_iff_not,
+        decide_eq_true_eq, not_and, Classical.not_not] at this
+      by_cases hv : sp.1 ∈ vcf
+      · exact hv
+      · exact absurd hc (this hv)
+    · intro h; exact h.2
+
+theorem rest_ok_iff (inp : Inputs) (n p p' : Int) (hn : inp.nSamples = some n) :
+    validate.rest inp p' = .ok p ↔ (p = p' ∧ (inp.onlyBp = true ∨
+      ∃ vcf, inp.vcfSamples = some vcf ∧ (∀ sp ∈ inp.sampleInfo, sp.2 ∈ inp.pops → sp.1 ∈ vcf) ∧
+        PopsOK inp n (inp.pops.drop 1))) := by
+  unfold validate.rest
+  cases hob : inp.onlyBp with
+  | true => simp; exact eq_comm
+  | false =>
+    cases hv : inp.vcfSamples with
+    | none => simp
+    | some vcf =>
+      cases hci : checkInfo inp vcf with
+      | error e =>
+        have hno : ¬ ((∀ sp ∈ inp.sampleInfo, sp.2 ∈ inp.pops → sp.1 ∈ vcf) ∧ PopsOK inp n (inp.pops.drop 1)) := by
+          intro h; rw [← checkInfo_ok_iff inp vcf n hn] at h; rw [hci] at h; cases h
+        simp only [Bool.false_eq_true, ↓reduceIte, hci, reduceCtorEq, false_or, Option.some.injEq,
+          exists_eq_left', false_iff, not_and]
+        intro _ ha hb; exact hno ⟨ha, hb⟩
+      | ok u2 =>
+        have hyes := (checkInfo_ok_iff inp vcf n hn).mp (by rw [hci])
+        simp only [Bool.false_eq_true, ↓reduceIte, hci, Except.ok.injEq, false_or, Option.some.injEq,
+          exists_eq_left']
+        exact ⟨fun h => ⟨h.symm, hyes⟩, fun h => h.1.symm⟩
+
+/-- **acceptance ⇔ every documented requirement holds** (and the effective population size is
+    `max popsize (10·n)`); each `rejects_…` theorem of C20 is a corollary -/
+theorem validate_ok_iff (tol : Rat) (inp : Inputs) (p : Int) :
+    validate tol inp = .ok p ↔ Accepts tol inp p := by
+  unfold validate Accepts
+  cases hn : inp.nSamples with
+  | none => simp
+  | some n =>
+    simp only [Option.some.injEq, exists_and_left, exists_eq_left']
+    by_cases h1 : inp.pops.length < 3
+    · simp only [h1, ↓reduceIte, reduceCtorEq, false_iff]; intro h; omega
+    simp only [h1, ↓reduceIte]
+    by_cases h2 : n < 1
+    · simp only [h2, ↓reduceIte, reduceCtorEq, false_iff]; intro h; omega
+    simp only [h2, ↓reduceIte]
+    cases hg : checkGens inp.pops.length tol 0 inp.gens with
+    | error e =>
+      have : ¬ GensOK inp.pops.length tol 0 inp.gens := by
+        intro h; rw [← checkGens_ok_iff] at h; rw [hg] at h; cases h
+      simp only [reduceCtorEq, false_iff]; intro h; exact this h.2.2.1
+    | ok u =>
+      have hgok : GensOK inp.pops.length tol 0 inp.gens := by
+        rw [← checkGens_ok_iff]; rw [hg]
+      simp only
+      cases h3 : inp.mapdirIsDir with
+      | false => simp
+      | true =>
+        simp only [Bool.not_true, Bool.false_eq_true, ↓reduceIte]
+        by_cases h4 : inp.chroms.any (fun c => !validChroms.contains c) = true
+        · simp only [h4, ↓reduceIte, reduceCtorEq, false_iff]
+          intro h
+          obtain ⟨c, hc, hb⟩ := List.any_eq_true.mp h4
+          have := h.2.2.2.2.1 c hc
+          simp only [Bool.not_eq_true', List.contains_eq_mem, decide_eq_false_iff_not] at hb
+          exact hb this
+        · have hall : ∀ c ∈ inp.chroms, c ∈ validChroms := by
+            intro c hc
+            by_cases hv : c ∈ validChroms
+            · exact hv
+            · exact absurd (List.any_eq_true.mpr ⟨c, hc, by simpa using hv⟩) h4
+          simp only [h4, Bool.false_eq_true, ↓reduceIte]
+          by_cases h5 : inp.mapFilesFound = 0
+          · simp only [h5, ↓reduceIte, reduceCtorEq, false_iff]; intro h; exact h.2.2.2.2.2.1 rfl
+          simp only [h5, ↓reduceIte]
+          cases hp : inp.popsize with
+          | none => simp
+          | some ps =>
+            simp only [Option.some.injEq, exists_eq_left']
+            by_cases h6 : ps ≤ 0
+            · simp only [h6, ↓reduceIte, reduceCtorEq, false_iff]; intro h; have := h.2.2.2.2.2.2.1; omega
+            simp only [h6, ↓reduceIte]
+            cases hr : inp.region with
+            | none =>
+              simp only [rest_ok_iff inp n p _ hn]
+              constructor
+              · intro h; exact ⟨by omega, by omega, hgok, trivial, hall, h5, by omega, h.1, by simp, h.2⟩
+              · intro h; exact ⟨h.2.2.2.2.2.2.2.1, h.2.2.2.2.2.2.2.2.2⟩
+            | some se =>
+              obtain ⟨s, e⟩ := se
+              by_cases h7 : s > e
+              · simp only [h7, ↓reduceIte, reduceCtorEq, false_iff]
+                intro h; have := h.2.2.2.2.2.2.2.2.1 s e rfl; omega
+              · simp only [h7, ↓reduceIte, rest_ok_iff inp n p _ hn]
+                constructor
+                · intro h
+                  refine ⟨by omega, by omega, hgok, trivial, hall, h5, by omega, h.1, ?_, h.2⟩
+                  intro s' e' hse; cases hse; omega
+                · intro h; exact ⟨h.2.2.2.2.2.2.2.1, h.2.2.2.2.2.2.2.2.2⟩
+
+/-! ### what happens between acceptance and the first simulated generation (`_prepare_coords`) -/
+
+inductive PrepReason | missingMap | badMapLine
+deriving Repr, DecidableEq
+
+/-- `_prepare_coords`' own refusals: a requested chromosome without map file, a map line without 4 fields -/
+def prepare (nChroms mapFilesFound : Nat) (lineFieldCounts : List Nat) : Except PrepReason Unit :=
+  if mapFilesFound ≠ nChroms then .error .missingMap
+  else if lineFieldCounts.any (· != 4) then .error .badMapLine
+  else .ok ()
+
+/-- the whole up-front phase of `simgenotype`: `validate_params`, then `_prepare_coords` -/
+def pipeline (tol : Rat) (inp : Inputs) (lineFieldCounts : List Nat) : Except (Sum Reason PrepReason) Int :=
+  match validate tol inp with
+  | .error e => .error (.inl e)
+  | .ok p =>
+    match prepare inp.chroms.length inp.mapFilesFound lineFieldCounts with
+    | .error e => .error (.inr e)
+    | .ok () => .ok p
+
+theorem pipeline_ok_iff (tol : Rat) (inp : Inputs) (lfc : List Nat) (p : Int) :
+    pipeline tol inp lfc = .ok p ↔
+      Accepts tol inp p ∧ inp.mapFilesFound = inp.chroms.length ∧ ∀ k ∈ lfc, k = 4 := by
+  unfold pipeline prepare
+  cases hv : validate tol inp with
+  | error e =>
+    have : ¬ Accepts tol inp p := by
+      intro h; rw [← validate_ok_iff] at h; rw [hv] at h; cases h
+    simp [this]
+  | ok q =>
+    have hq : Accepts tol inp q := (validate_ok_iff tol inp q).mp hv
+    by_cases h1 : inp.mapFilesFound = inp.chroms.length
+    · by_cases h2 : lfc.any (· != 4) = true
+      · simp only [h1, ne_eq, not_true_eq_false, ↓reduceIte, h2, reduceCtorEq, false_iff, not_and]
+        intro _ _ h
+        obtain ⟨k, hk, hb⟩ := List.any_eq_true.mp h2
+        have := h k hk
+        simp [this] at hb
+      · have hall : ∀ k ∈ lfc, k = 4 := by
+          intro k hk
+          by_cases h4 : k = 4
+          · exact h4
+          · exact absurd (List.any_eq_true.mpr ⟨k, hk, by simpa using h4⟩) h2
+        simp only [h1, ne_eq, not_true_eq_false, ↓reduceIte, h2, Bool.false_eq_true, Except.ok.injEq]
+        constructor
+        · intro h; subst h; exact ⟨hq, trivial, hall⟩
+        · intro h
+          have h1' := (validate_ok_iff tol inp p).mpr h.1
+          rw [hv] at h1'; exact Except.ok.inj h1'
+    · simp only [ne_eq, h1, not_false_eq_true, ↓reduceIte, reduceCtorEq, false_iff]
+      intro h; exact h.2.1
 
 end Validate
